@@ -82,7 +82,7 @@ def eval_cond(cond, luts, b):
 def parse_code(code):
     """-> dict(root, states={id: dict(loop, setup, next[256], eoi, prefix_guard, root_guard)}, sm=bool)"""
     # byte literals holding a brace would confuse the brace matcher
-    code = code.replace("b'{'", '123u8').replace("b'}'", '125u8')
+    code = code.replace("b'{'", '123u8').replace("b'}'", '125u8').replace("b'('", '40u8').replace("b')'", '41u8').replace("b'['", '91u8').replace("b']'", '93u8')
     luts = {}
     for m in re.finditer(r'const _TABLE_(\d+) : \[:: core :: primitive :: u8 ; 256\] = \[([^\]]*)\]', code):
         luts[int(m.group(1))] = [int(x.strip()[:-2]) for x in m.group(2).split(',') if x.strip()]
@@ -257,7 +257,7 @@ def _cond_plan(cond):
 
 def extract_plan(code):
     """the rendering decisions read off the generated text, in the format of the driver's EMIT answer"""
-    code = code.replace("b'{'", '123u8').replace("b'}'", '125u8')
+    code = code.replace("b'{'", '123u8').replace("b'}'", '125u8').replace("b'('", '40u8').replace("b')'", '41u8').replace("b'['", '91u8').replace("b']'", '93u8')
     luts = {}
     for m in re.finditer(r'const _TABLE_(\d+) : \[:: core :: primitive :: u8 ; 256\] = \[([^\]]*)\]', code):
         luts[int(m.group(1))] = [int(x.strip()[:-2]) for x in m.group(2).split(',') if x.strip()]
